@@ -319,11 +319,13 @@ package scheduler
 // callback wired (so that it leaves the partition when it terminates); a refused application leaves no trace in the
 // partition's application map or in any queue
 //@ func (pc *PartitionContext) AddApplication(app *objects.Application) (err error)
-//@   props C17 C04 C10
+//@   props C17 C04 C10 C12
 //@   sweep
 //@   mode nopanic=off
 //@   at[placedfirst] call placement.AppPlacementManager.PlaceApplication#1: assert arg1 == app && ncalls(scheduler.PartitionContext.getApplication) == 1
 //@   at[leaf] call objects.Application.SetQueue#1: assert arg0 == app && arg1 == queue && queue != nil && queue.isLeaf
+//@   at[configuredmax:C12,C17] call objects.Queue.GetMaxQueueSet#1: assert arg0 == queue
+//@   at[gangfit:C12,C17] call resources.Resource.FitInMaxUndef#1: assert arg0 == maxQueue && ncalls(objects.Queue.GetMaxQueueSet) == 1 && ncalls(objects.Queue.GetMaxResource) == 0
 //@   at[wired] call objects.Application.SetTerminatedCallback#1: assert arg0 == app
 //@   at[listed] call objects.Queue.AddApplication#1: assert arg0 == queue && arg1 == app && ncalls(objects.Application.SetQueue) == 1 && ncalls(objects.Application.SetTerminatedCallback) == 1
 //@   ensures[registered] err == nil ==> pc.applications[app.ApplicationID] == app && ncalls(objects.Queue.AddApplication) == 1 && ncalls(placement.AppPlacementManager.PlaceApplication) == 1
